@@ -245,4 +245,48 @@ def bufOK (it : Item) : Buf → Bool
 
 def itemOK (it : Item) : Bool := it.bufs.all (bufOK it)
 
+/-! ## decoding of the Nat-encoded tables (Gen/Interop.lean) and of driver requests -/
+
+def decCBase (c n : Nat) : Option CBase :=
+  match c with
+  | 1 => some (.int n true) | 2 => some (.float n) | 3 => some (.complex n) | 4 => some .bool
+  | 5 => some .char | 6 => some .void | 7 => some (.struct n) | 8 => some .cdesc | 9 => some .funptr
+  | _ => none
+
+def decFBase (c n : Nat) : Option FBase :=
+  match c with
+  | 1 => some (.integer n) | 2 => some (.real n) | 3 => some (.complex n) | 4 => some (.logical n)
+  | 5 => some .character | 6 => some .cptr | 7 => some (.derived n) | 8 => some .assumedType
+  | 9 => some .procedure | 10 => some .cfunptr
+  | _ => none
+
+def decShape : Nat → Option FShape
+  | 0 => some .scalar | 1 => some .array | 2 => some .desc | _ => none
+
+def decC (t : Nat × Nat × Nat) : Option ParamC :=
+  (decCBase t.1 t.2.1).map (fun b => ⟨b, t.2.2⟩)
+
+def decF (t : Nat × Nat × Nat × Nat) : Option DummyF :=
+  match decFBase t.1 t.2.1, decShape t.2.2.2 with
+  | some b, some sh => some ⟨b, t.2.2.1 == 1, sh⟩
+  | _, _ => none
+
+def decCT (t : Nat × Nat × Nat × Nat) : Option CDeclT :=
+  match t.1 with
+  | 0 => some (.argType t.2.2.2)
+  | 1 => (decC t.2).map .fixed
+  | _ => none
+
+def decFT (t : Nat × Nat × Nat × Nat × Nat) : Option FDeclT :=
+  match t.1 with
+  | 0 => some (.fType (t.2.2.2.1 == 1))
+  | 1 => (decF t.2).map .fixed
+  | 2 => (decFBase t.2.1 t.2.2.1).map (fun b => .fixedDim b (t.2.2.2.1 == 1))
+  | _ => none
+
+def allSome : List (Option α) → Option (List α)
+  | [] => some []
+  | none :: _ => none
+  | some x :: xs => (allSome xs).map (x :: ·)
+
 end Shroud.Interop
